@@ -48,9 +48,12 @@ fn consolidation_keeps_every_record_and_returns_existing_hash_named_shards() {
         ("empty shard first", vec![(vec![], vec![]), (vec![0, 1], vec![0])]),
         ("empty shard last", vec![(vec![0, 1], vec![0]), (vec![], vec![])]),
         ("chain of supersets", vec![(vec![0], vec![]), (vec![0, 1], vec![]), (vec![0, 1, 2], vec![0])]),
+        // leftovers of an interrupted earlier consolidation: A, B and their union C are all present, then D was added
+        ("union of earlier shards already present", vec![(vec![0], vec![0]), (vec![1], vec![1]), (vec![0, 1], vec![0, 1]), (vec![2], vec![2])]),
+        ("union of earlier shards already present, more", vec![(vec![3], vec![]), (vec![1], vec![1]), (vec![1, 3], vec![1]), (vec![0, 2], vec![0]), (vec![0, 1, 2, 3], vec![0, 1])]),
     ];
     for (what, shards) in cases {
-        for target in [1u64 << 30, 700, 1200, 2500] {
+        for target in [1u64 << 30, 700, 1200, 2500].into_iter().chain((300..3000).step_by(50)) {
             let dir = tempfile::tempdir().unwrap();
             let mut files = BTreeSet::new();
             let mut xorbs = BTreeSet::new();
